@@ -1,7 +1,7 @@
 #!/bin/bash
 # tools/seedconfirm.sh <Cxx> <k> : confirm a seeded change delivered in /tmp/wt/<Cxx>_out/<k> in the scratch worktree /tmp/wt/<Cxx>:
 # clean tree: suite passes, demo passes; changed tree: compiles, suite passes, demo fails.  Stores it under /verif/seeded/<Cxx>-<k>/.
-id=$1; k=$2; WT=/tmp/wt/$id; D=/tmp/wt/${id}_out/$k
+id=$1; k=$2; WT=/tmp/wt/$id; D=/tmp/wt/${id}_out/$k; T=${3:-$id-$k}    # optional third argument: name under /verif/seeded
 cd $WT || exit 2
 git checkout -q -- . ; git checkout -q --detach $(git -C /repo rev-parse HEAD)
 suite() { local ok=0; for t in BasicTests BuildSystemTests CAPITests CASTests CoreTests EvoTests NinjaTests; do n=$(cd $WT/_build && timeout 900 ./bin/$t 2>&1 | grep -c '^\[       OK \]'); ok=$((ok+n)); done; echo $ok; }
@@ -14,6 +14,6 @@ s=$(suite)
 git checkout -q -- . ; cmake --build _build > /dev/null 2>&1
 echo "$id-$k: demo clean rc=$c, suite with change passed=$s/83, demo changed rc=$m"
 if [ $c -eq 0 ] && [ $m -ne 0 ] && [ "$s" -ge 83 ]; then
-  mkdir -p /verif/seeded/$id-$k && cp -r $D/. /verif/seeded/$id-$k/ && rm -f /verif/seeded/$id-$k/demo /verif/seeded/$id-$k/*.o
-  echo "CONFIRMED -> /verif/seeded/$id-$k"
+  mkdir -p /verif/seeded/$T && cp -r $D/. /verif/seeded/$T/ && rm -f /verif/seeded/$T/demo /verif/seeded/$T/*.o
+  echo "CONFIRMED -> /verif/seeded/$T"
 else echo "NOT CONFIRMED"; fi
